@@ -354,7 +354,7 @@ impl<'c, 'd> G<'c, 'd> {
             5 => CV::Sym(SYMS[self.c.below(SYMS.len())].to_string()),
             6 => CV::Char(['a', 'Z', '0', ' ', 'λ'][self.c.below(5)]),
             7 => CV::Bool(self.c.chance(1, 2)),
-            _ => CV::Ratio([1, -1, 3, 7][self.c.below(4)], [2, 3, 5][self.c.below(3)]),
+            _ => CV::Ratio([1, -1, 7, -7][self.c.below(4)], [2, 3, 5][self.c.below(3)]),
         }
     }
 
@@ -542,7 +542,13 @@ impl<'c, 'd> G<'c, 'd> {
                                 ("hashset-union", format!("(hashset-union {} {})", xe, arg.0), Ok(CV::Set(n)))
                             }
                             1 => ("hashset-intersection", format!("(hashset-intersection {} {})", xe, arg.0), Ok(CV::Set(m.iter().filter(|(k, _)| o.contains_key(*k)).map(|(k, v)| (k.clone(), v.clone())).collect()))),
-                            2 => ("hashset-difference", format!("(hashset-difference {} {})", xe, arg.0), Ok(CV::Set(m.iter().filter(|(k, _)| !o.contains_key(*k)).map(|(k, v)| (k.clone(), v.clone())).collect()))),
+                            // documented (and, with the imbl feature, implemented) as the symmetric difference:
+                            // (hashset-difference (hashset 10 20 30) (hashset 20 30 40)) ;; => (hashset 40 10)
+                            2 => (
+                                "hashset-difference",
+                                format!("(hashset-difference {} {})", xe, arg.0),
+                                Ok(CV::Set(m.iter().filter(|(k, _)| !o.contains_key(*k)).chain(o.iter().filter(|(k, _)| !m.contains_key(*k))).map(|(k, v)| (k.clone(), v.clone())).collect())),
+                            ),
                             _ => ("hashset-subset?", format!("(hashset-subset? {} {})", xe, arg.0), Ok(CV::Bool(m.keys().all(|k| o.contains_key(k))))),
                         },
                         _ => ("hashset->list", format!("(list->hashset (hashset->list {}))", xe), Ok(xv.clone())),
